@@ -31,6 +31,7 @@ import ast
 import re
 
 from sa.model import AnalysisError, NOFOLD, dotted
+from sa.exprs import names_assigned_from as X_names
 from sa.mutate import Mutant
 
 PROP = 'C07'
@@ -98,9 +99,12 @@ def _branches(m, f):
     return out
 
 
-def _fixups(branch_node, var='right_exp'):
+def _fixups(branch_node, var=None):
     """type tests on the right operand inside a branch: {class name: is_total}"""
     out = {}
+    if var is None:
+        mod_ = ast.Module(body=branch_node.body, type_ignores=[])
+        var = (X_names(mod_, 'self.parse_expression(') or ['right_exp'])[0]
     for n in ast.walk(ast.Module(body=branch_node.body, type_ignores=[])):
         if isinstance(n, ast.If):
             t = ast.unparse(n.test)
@@ -350,6 +354,8 @@ def run(ctx):
         raise AnalysisError('PymbolicMapper.map_slice vanished')
     import itertools
     n6 = 0
+    # the converted components: the local bound to the recursed children of the slice
+    cname = (X_names(ms.node, 'self.rec(', '.children') or ['children'])[0]
 
     from sa.miniev import ev, Unknown as _Unknown
 
@@ -359,24 +365,24 @@ def run(ctx):
             if isinstance(st, ast.If):
                 visit6(st.body, guards + [st.test])
                 visit6(st.orelse, guards + [ast.UnaryOp(op=ast.Not(), operand=st.test)])
-            elif isinstance(st, ast.Assign) and ast.unparse(st.targets[0]) == 'children' and isinstance(st.value, ast.Tuple) \
+            elif isinstance(st, ast.Assign) and ast.unparse(st.targets[0]) == cname and isinstance(st.value, ast.Tuple) \
                     and all(isinstance(x, ast.Constant) for x in st.value.elts):
                 n6 += 1
                 bad = None
                 for ln in (1, 2, 3):
                     for shape in itertools.product((None, 'X'), repeat=ln):
                         try:
-                            fires = all(ev(g, {'children': shape}) for g in guards)
+                            fires = all(ev(g, {cname: shape}) for g in guards)
                         except _Unknown as u:
                             raise AnalysisError(f'map_slice guard uses `{u}`, outside the evaluated fragment')
                         if fires and any(c is not None for c in shape):
                             bad = bad or shape
                 gtxt = ' and '.join(ast.unparse(g) for g in guards) or 'True'
-                inst = f'PymbolicMapper.map_slice:children={ast.unparse(st.value)}'
+                inst = f'PymbolicMapper.map_slice:children={ast.unparse(st.value)}'   # construct key independent of the local's name
                 if bad:
                     txt = ':'.join('' if c is None else 'n' for c in bad)
                     ctx.violation('R6', inst, f'{PM.module.relpath}:{st.lineno}',
-                                  f'`children = {ast.unparse(st.value)}` fires under `{gtxt}` also for the section `{txt}` '
+                                  f'`{cname} = {ast.unparse(st.value)}` fires under `{gtxt}` also for the section `{txt}` '
                                   f'(components {bad}): its bounds/stride are dropped, e.g. arr(:n) becomes arr(:)',
                                   facts={'guard': gtxt, 'counterexample_shape': list(bad)})
                 else:
